@@ -1019,7 +1019,10 @@ class Fxp():
                 if self.n_frac == 0:
                     val = raw_val
                 else:
-                    val = np.asarray(raw_val // self._get_conv_factor())    # (a single `item` is a python number)
+                    conv_factor = self._get_conv_factor()
+                    if isinstance(conv_factor, int) and conv_factor >= 2**63:
+                        raw_val = np.asarray(raw_val, dtype=object)     # python integers: the factor doesn't fit in a 64 bits integer
+                    val = np.asarray(raw_val // conv_factor)    # (a single `item` is a python number)
                     val = np.array(list(map(int, val.flatten()))).reshape(val.shape)
                 
             elif dtype == complex or np.issubdtype(dtype, np.complexfloating):
